@@ -1056,6 +1056,56 @@ Proof.
   - reflexivity.
 Qed.
 
+Lemma queue_eqb_spec a b : queue_eqb a b = true <-> a = b.
+Proof.
+  unfold queue_eqb. apply list_eqb_spec. apply pair_eqb_spec.
+  - intros; apply Z.eqb_eq.
+  - apply zlist_eqb_spec.
+Qed.
+
+Lemma firstn_firstn_len {A} k (q : list A) : firstn (length (firstn k q)) q = firstn k q.
+Proof.
+  rewrite firstn_length. destruct (Nat.le_ge_cases k (length q)) as [H|H].
+  - rewrite Nat.min_l by exact H. reflexivity.
+  - rewrite Nat.min_r by exact H. rewrite !firstn_all2; auto.
+Qed.
+
+Lemma rle_pos q : Forall (fun p => 0 < fst p) (rle q).
+Proof.
+  induction q as [|x r IH]; cbn [rle]; [constructor|].
+  destruct (rle r) as [|[k y] t]; [repeat constructor; cbn; lia|].
+  inv IH. cbn in H1. destruct (qev_eqb x y); repeat constructor; cbn; auto; lia.
+Qed.
+
+Lemma qev_eqb_eq x y : qev_eqb x y = true -> x = y.
+Proof.
+  destruct x as [a b], y as [c d]. unfold qev_eqb. cbn. intro H. apply andb_true_iff in H.
+  destruct H as [H1 H2]. apply Z.eqb_eq in H1. apply zlist_eqb_spec in H2. congruence.
+Qed.
+
+Lemma expand_rle q : expand (rle q) = q.
+Proof.
+  induction q as [|x r IH]; cbn [rle]; [reflexivity|].
+  pose proof (rle_pos r) as P. destruct (rle r) as [|[k y] t]; cbn [expand] in *.
+  - subst r. cbn. reflexivity.
+  - apply Forall_inv in P. cbn in P. destruct (qev_eqb x y) eqn:E; cbn [expand].
+    + apply qev_eqb_eq in E. subst y. rewrite <- IH. unfold repeat_ev.
+      replace (Z.to_nat (k + 1)) with (S (Z.to_nat k)) by lia. reflexivity.
+    + rewrite <- IH. reflexivity.
+Qed.
+
+Lemma drop_prog c k : Prog (fun s => emit (VDrop c (rle (firstn k (queue_of (vw s) c)))) s).
+Proof.
+  intros s G.
+  assert (OK : dead (vw s) = false ->
+               ok_ev (vw s) (VDrop c (rle (firstn k (queue_of (vw s) c)))) = true).
+  { intro D. unfold ok_ev. rewrite D, (proj2 G). cbn [negb andb]. rewrite expand_rle.
+    apply queue_eqb_spec. symmetry. apply firstn_firstn_len. }
+  split.
+  - apply emit_good; [exact G | exact OK | rewrite vstep_live; reflexivity | exact I].
+  - apply emit_ext; [exact OK | exact I].
+Qed.
+
 Lemma exec_op_good s o : Good s -> Good (exec_op s o).
 Proof.
   intro G. unfold exec_op.
@@ -1066,6 +1116,7 @@ Proof.
   - apply (Good_same (emit VOp s')); auto.
   - apply exec_act_prog; [apply invoke_spec | exact G0].
   - destruct (is_local c); [apply drain_prog; exact G0 | apply Prog_emit_simple; [exact I | exact G0]].
+  - destruct (is_local c); [apply (drop_prog c _ _ G0) | apply Prog_emit_simple; [exact I | exact G0]].
   - destruct (is_local c); [apply (Good_same (emit VOp s')); auto | apply Prog_emit_simple; [exact I | exact G0]].
 Qed.
 
@@ -1435,7 +1486,45 @@ Proof.
   - rewrite Q, (N2 G), Z.sub_diag. cbn. apply app_nil_r.
 Qed.
 
+(* 6c. a subscribed centre with room gets every copy, whatever the other centres' queues hold *)
+Theorem gpub_not_starved t pre n a k qlens post :
+  Holds t -> t = pre ++ VGPub n a k qlens :: post ->
+  forall c, In c local_centres -> has_g_live (view_of pre) c n = true ->
+    qlen (view_of pre) c + k <= QCAP ->
+    queue_of (view_of (pre ++ [VGPub n a k qlens])) c =
+    queue_of (view_of pre) c ++ repeat (n, a) (Z.to_nat k).
+Proof.
+  intros H E c Hc Hg Room. destruct (gpub_delivery _ _ _ _ _ _ _ H E) as [K D].
+  destruct (D c Hc) as [D1 _]. rewrite (D1 Hg). do 2 f_equal. lia.
+Qed.
+
+(* 6d. a bulk receive takes a prefix of the queue, in order *)
+Theorem drop_prefix t pre c items post :
+  Holds t -> t = pre ++ VDrop c items :: post ->
+  queue_of (view_of pre) c = expand items ++ queue_of (view_of (pre ++ [VDrop c items])) c.
+Proof.
+  intros H E. destruct (Holds_at _ _ _ _ H E) as (_ & OK & _).
+  unfold ok_ev in OK. destruct (dead (view_of pre)); [discriminate|].
+  destruct (lastfull (view_of pre)); [discriminate|]. cbn [negb andb] in OK.
+  apply queue_eqb_spec in OK. rewrite view_of_snoc. unfold vstep. cbn [vstep0].
+  change (queue_of (set_lastfull ?x ?b) c) with (queue_of x c). rewrite queue_set_same.
+  rewrite OK at 1. symmetry. apply firstn_skipn.
+Qed.
+
 (* ================================================================ Part D: the statements of Props.v *)
+Lemma m_not_starved : forall g ops pre n a k qlens post,
+  run g ops = pre ++ VGPub n a k qlens :: post ->
+  forall c, In c local_centres -> has_g_live (view_of pre) c n = true ->
+    qlen (view_of pre) c + k <= QCAP ->
+    queue_of (view_of (pre ++ [VGPub n a k qlens])) c =
+    queue_of (view_of pre) c ++ repeat (n, a) (Z.to_nat k).
+Proof. intros. eapply gpub_not_starved; eauto using run_holds. Qed.
+
+Lemma m_drop : forall g ops pre c items post,
+  run g ops = pre ++ VDrop c items :: post ->
+  queue_of (view_of pre) c = expand items ++ queue_of (view_of (pre ++ [VDrop c items])) c.
+Proof. intros. eapply drop_prefix; eauto using run_holds. Qed.
+
 Lemma m_holds : forall g ops, Holds (run g ops).
 Proof. exact run_holds. Qed.
 
